@@ -184,6 +184,15 @@ def run(tier):
         chk.set("binding_demo", {"corrupted_rejected": okdemo, "field": "wind input > 0 in the upwind bin (180 degrees)"})
         if not okdemo:
             chk.machinery("binding demonstration failed")
+        # histories of one long-lived balance (BalanceSession.tla behaviours): evaluations interleaved with parameter updates
+        from vlib import balance_session as bs
+        behs = bs.tlc_behaviours(chk, "c08", quick, chk.seed)
+        nb_ = 0
+        for pair_ in (("st4", "st4"), ("st4", "st6")):
+            nb_ += bs.replay(chk, behs, pair_, "C08")
+        chk.add("spec_traces_replayed", len(behs))
+        chk.set("balance_session_evaluations_compared", nb_)
+        evals += nb_
         chk.set("evaluations", evals)
         chk.set("distinct_nontrivial", len(distinct))
         chk.assume("sign / support are decided by the specification on integer-degree grids (bins at exactly +-90 degrees from the wind unspecified); "
